@@ -9,14 +9,52 @@ from functools import lru_cache
 MAXVARS = 24
 
 
+class Batch:
+    """A chosen set of K assignments over n variables, usable wherever the functions of this module
+    take the number of variables ``n``: row r is the r-th assignment, ``full(B)`` has K bits and
+    ``var_mask(B, i)`` tells in which rows variable i is true.  This lets the very same reference
+    predicates be evaluated on a sample of assignments when 2^n rows are out of reach."""
+
+    def __init__(self, n, assignments):
+        """assignments: iterable of sets (or iterables) of the variables that are true"""
+        self.n = n
+        self.rows = [frozenset(a) for a in assignments]
+        self.K = len(self.rows)
+        self.full = (1 << self.K) - 1
+        self.masks = [0] * (n + 1)
+        for r, a in enumerate(self.rows):
+            bit = 1 << r
+            for v in a:
+                self.masks[v] |= bit
+
+    def var(self, i):
+        assert 1 <= i <= self.n, (self.n, i)
+        return self.masks[i]
+
+    def row(self, r):
+        return [v if v in self.rows[r] else -v for v in range(1, self.n + 1)]
+
+
 @lru_cache(maxsize=None)
-def full(n):
+def _full_int(n):
     return (1 << (1 << n)) - 1
 
 
-@lru_cache(maxsize=None)
+def full(n):
+    if isinstance(n, Batch):
+        return n.full
+    return _full_int(n)
+
+
 def var_mask(n, i):
     """Mask of rows where variable i (1..n) is true."""
+    if isinstance(n, Batch):
+        return n.var(i)
+    return _var_mask_int(n, i)
+
+
+@lru_cache(maxsize=None)
+def _var_mask_int(n, i):
     assert 1 <= i <= n, (n, i)
     block = 1 << (i - 1)                 # run length
     unit = ((1 << block) - 1) << block   # 0..0 1..1 pattern of length 2*block
@@ -193,10 +231,10 @@ def opb_tt(n, constraints):
     return r
 
 
-def formula_tt(F):
-    """Truth table of a cnfgen CNF or OPB object."""
+def formula_tt(F, env=None):
+    """Truth table of a cnfgen CNF or OPB object (on all rows, or on the rows of a Batch)."""
     from cnfgen.formula.baseopb import BaseOPB
-    n = F.number_of_variables()
+    n = F.number_of_variables() if env is None else env
     if isinstance(F, BaseOPB):
         return opb_tt(n, list(F))
     return cnf_tt(n, list(F))
